@@ -83,3 +83,12 @@ package logdb
 //@ ensures result != nil ==> lr.markerIndex == old(lr.markerIndex) && lr.length == old(lr.length) && lr.markerTerm == old(lr.markerTerm)
 //@ ensures index < old(lr.markerIndex) ==> result == raft.ErrCompacted
 //@ ensures index > old(lr.last()) ==> result == raft.ErrUnavailable
+
+// ---------------------------------------------------------------- hard-state cache of the sharded store (C04 C09)
+// saveState skips the write only if term, vote AND commit all equal the last persisted state
+//@ func (r *cache) setState [C04 C09]
+//@ requires r.ps != nil
+//@ modifies held(r.mu), entries(r.ps)
+//@ ensures result == !(old(mk(raftio.NodeInfo, shardID, replicaID) in r.ps) && old(r.ps[mk(raftio.NodeInfo, shardID, replicaID)].Term) == st.Term &&
+//@    old(r.ps[mk(raftio.NodeInfo, shardID, replicaID)].Vote) == st.Vote && old(r.ps[mk(raftio.NodeInfo, shardID, replicaID)].Commit) == st.Commit)
+//@ ensures mk(raftio.NodeInfo, shardID, replicaID) in r.ps && r.ps[mk(raftio.NodeInfo, shardID, replicaID)] == st
